@@ -49,7 +49,7 @@ FORBIDDEN = re.compile(r'\b(Admitted|admit|Axiom|Axioms|Parameter|Parameters|Con
 REQUIRED_THEOREMS = ['C19_interleaving_irrelevant', 'C19_interleaving_irrelevant_complete', 'C19_history_independent',
                      'C19_shared_write_breaks_interleaving', 'C19_shared_write_breaks_history',
                      'C19_private_writes_read_only', 'C19_allowed_store_private', 'C19_allowed_rejects_violations',
-                     'effects_allowed', 'time_now_pinned', 'sync_pinned']
+                     'effects_allowed', 'effects_nontrivial', 'time_now_pinned', 'sync_only_ctx_done']
 TIERS = {'quick': dict(n=8, m=200, hist=40, timeout=900), 'thorough': dict(n=32, m=2000, hist=400, timeout=7200)}
 
 CANNOT_EXHIBIT = [
@@ -506,6 +506,18 @@ def run(prop='C19', tier='quick', seed=1, replay=None):
     repo = os.path.abspath(os.environ.get('VERIF_REPO', '/repo'))
     os.makedirs(STAGE, exist_ok=True)
     log = []
+    # one run at a time in the staging directory
+    import fcntl
+    lock = open(os.path.join(STAGE, '.lock'), 'w')
+    fcntl.flock(lock, fcntl.LOCK_EX)
+    try:
+        return _run(tier, seed, replay, repo, t_start, log)
+    finally:
+        fcntl.flock(lock, fcntl.LOCK_UN)
+        lock.close()
+
+
+def _run(tier, seed, replay, repo, t_start, log):
 
     replay_call = None
     if replay:
@@ -536,7 +548,7 @@ def run(prop='C19', tier='quick', seed=1, replay=None):
         payload = {
             'property': 'C19', 'kind': 'failing-input', 'evidence': kind, 'tier': tier, 'seed': seed, 'repository': repo,
             'input': {'n': cfg['n'], 'm': cfg['m'], 'hist': cfg['hist'], 'seed': seed,
-                      'call': (first_mm or {}).get('call') if kind != 'race' else None,
+                      'call': (first_mm or {}).get('call'),
                       'path': (first_mm or {}).get('path_src'), 'doc': (first_mm or {}).get('doc'), 'vars': (first_mm or {}).get('vars')},
             'race_reports': R['race_reports'],
             'race_report': R['first_race'],
